@@ -127,21 +127,29 @@ def main():
         return
     jobs = json.load(open(sys.argv[1]))
     guard_s = jobs.get("guard_s", 20)
-    out = []
+    # guarded calls run concurrently in sacrificial subprocesses, each with its own wall-clock limit
+    procs = {}
     for i, call in enumerate(jobs["calls"]):
         if call.get("guard"):
-            try:
-                p = subprocess.run([sys.executable, os.path.abspath(__file__), "--one", sys.argv[1], str(i)], capture_output=True,
-                                   text=True, timeout=guard_s)
-                if p.returncode == 0 and p.stdout.strip():
-                    out.append(json.loads(p.stdout.strip().split("\n")[-1]))
-                else:
-                    out.append({"id": call["id"], "outcome": "crash", "exc": "rc=%s %s" % (p.returncode, p.stderr[-300:])})
-            except subprocess.TimeoutExpired:
-                out.append({"id": call["id"], "outcome": "timeout", "exc": "no result after %s s (wall-clock guard)" % guard_s})
-        else:
-            out.append(run_call(call))
-    print(json.dumps({"results": out}))
+            procs[i] = (subprocess.Popen([sys.executable, os.path.abspath(__file__), "--one", sys.argv[1], str(i)],
+                                         stdout=subprocess.PIPE, stderr=subprocess.PIPE, text=True), time.time())
+    out = {}
+    for i, call in enumerate(jobs["calls"]):
+        if not call.get("guard"):
+            out[i] = run_call(call)
+    for i, (p, t0) in procs.items():
+        call = jobs["calls"][i]
+        try:
+            so, se = p.communicate(timeout=max(0.5, guard_s - (time.time() - t0)))
+            if p.returncode == 0 and so.strip():
+                out[i] = json.loads(so.strip().split("\n")[-1])
+            else:
+                out[i] = {"id": call["id"], "outcome": "crash", "exc": "rc=%s %s" % (p.returncode, se[-300:])}
+        except subprocess.TimeoutExpired:
+            p.kill()
+            p.communicate()
+            out[i] = {"id": call["id"], "outcome": "timeout", "exc": "no result after %s s (wall-clock guard)" % guard_s}
+    print(json.dumps({"results": [out[i] for i in range(len(jobs["calls"]))]}))
 
 
 if __name__ == "__main__":
